@@ -440,6 +440,13 @@ def _mentions_is_finished(prog, f, operand, depth=6):
                 c = payload
                 if c.name == 'is_finished' and 'JoinHandle' in c.path:
                     return True
+                # a helper of this crate that answers from is_finished (e.g. `fn is_task_in_progress(&Option<JoinHandle>)`)
+                for t in prog.resolve(c):
+                    if t in prog.fns and f.locals[c.dest[0]]['s'] == 'bool':
+                        for gid in prog.family(t):
+                            g = prog.fns[gid]
+                            if any(x.name == 'is_finished' and 'JoinHandle' in x.path for x in g.calls):
+                                return True
                 for a in c.args:
                     la = op_local(a)
                     if la is None:
